@@ -33,7 +33,9 @@ GenPeak == /\ phase = "gen" /\ gen = "peaks" /\ Len(ain.peaks) < Max(PeakCounts)
 GenDone == /\ phase = "gen" /\ gen = "peaks" /\ Len(ain.peaks) \in PeakCounts
            /\ gen' = "done" /\ phase' = "startPeak"
            /\ UNCHANGED <<ain, k, scored, segsAll, final, row, pvars, svars, chvars, rvars>>
-Next == GenRef \/ GenRefDone \/ GenQry \/ GenQryDone \/ GenPeak \/ GenDone \/ (CoreNext /\ UNCHANGED gen)
+\* termination (C07): every behaviour reaches done / aborted; anything that gets stuck earlier is a TLC deadlock error
+Terminated == (Done \/ phase = "gen") /\ UNCHANGED <<allvars, gen>>   \* (dead ends of the input generator are not system states)
+Next == GenRef \/ GenRefDone \/ GenQry \/ GenQryDone \/ GenPeak \/ GenDone \/ (CoreNext /\ UNCHANGED gen) \/ Terminated
 
 RowSegs == [a \in 1..Len(final) |-> [peak |-> final[a].peak, pos |-> final[a].pos]]
 Inv_C01 == phase = "done" /\ row.pairs # <<>> =>
